@@ -145,6 +145,11 @@ def observe_meta(par, text, res, prop):
                     if got != want:
                         fails.append(('exact', {'text': pf + text, 'prefix': pf, 'observed': got, 'expected': want, 'emitted': str(obj)[:300]}))
                         break
+                else:
+                    # extensible on the right as well: a word follows the numeral directly
+                    got = (Pregex('x') + obj + 'kg').is_exact_match('x' + text + 'kg')
+                    if got != want:
+                        fails.append(('exact', {'text': 'x' + text + 'kg', 'prefix': 'x', 'suffix': 'kg', 'observed': got, 'expected': want, 'emitted': str(obj)[:300]}))
             else:
                 got = obj.is_exact_match(text)
                 if got != want:
